@@ -143,5 +143,35 @@ def stats(episodes):
 
 
 def replay(ctx, rp):
+    if rp["spec"].get("driver") == "suite-scans":
+        tr, episodes, fails, _ = validate_suite_scans()
+        return CheckResult(fails=fails, coverage={"replayed_events": tr.events})
     tr, episodes, fails = run_and_validate([rp["spec"]], procs=1)
     return CheckResult(fails=fails, coverage={"replayed_events": tr.events})
+
+
+def validate_suite_scans():
+    """(T) the repository's own suite as a trace source for scans: every call of an entry point the suite makes on
+    its resource projects (module_path at and below the root, exclusions, externals with glob / regex exclusions, level
+    limits) is recorded by /verif's pytest plugin together with the tree as found on disk (harness/wild.py) and
+    validated by Trace_Scan.  -> (trace result, episodes, fails, meta); skipped (and said so) if it cannot be recorded."""
+    import json, os, subprocess, tempfile
+
+    try:
+        fd, out = tempfile.mkstemp(suffix=".ndjson", dir=tlc.scratch_root())
+        os.close(fd)
+        env = dict(os.environ, PYTESTARCH_VERIF_TRACE=out, PYTHONDONTWRITEBYTECODE="1")
+        env["PYTHONPATH"] = "/verif:" + env.get("PYTHONPATH", "")
+        p = subprocess.run(["/venv/bin/python", "-m", "pytest", "-q", "-p", "no:cacheprovider", "-p", "harness.pytest_plugin",
+                            "--deselect", "tests/test_architecture.py"], cwd="/repo", env=env,
+                           stdout=subprocess.PIPE, stderr=subprocess.STDOUT, text=True, timeout=1800)
+        meta = json.load(open(out + ".meta"))["scan_stats"]
+        evs = [json.loads(l) for l in open(out + ".scans")]
+        episodes = [evs[i:i + 2] for i in range(0, len(evs), 2)]
+        if len(episodes) < 5:
+            raise tlc.MachineryError(f"only {len(episodes)} scans recorded")
+    except Exception as e:  # noqa: BLE001
+        return trace.TraceResult(), [], [], {"scans": 0, "skipped": {"suite scans not recorded": str(e)[:300]}}
+    tr = trace.validate(episodes, "Trace_Scan.tla", "Trace_Scan.cfg", procs=4)
+    specs = [{"driver": "suite-scans"}] * len(episodes)
+    return tr, episodes, attach(tr, specs, episodes), meta
